@@ -100,7 +100,8 @@ fn case_strategy() -> BoxedStrategy<StyleCase> {
     (
         proptest::collection::vec(call_strategy(), 1..6),
         len_pos,
-        prop_oneof![3 => 1u16..30, 2 => 30u16..200],
+        // (a terminal may report 0 columns)
+        prop_oneof![1 => Just(0u16), 6 => 1u16..30, 4 => 30u16..200],
         0u8..12,
         any::<bool>(),
         "[a-z \t\u{4e16}]{0,6}",
@@ -271,7 +272,7 @@ fn decode_style(u: &mut FuzzInput) -> StyleCase {
         5 => (Some(u64::MAX), u64::MAX),
         _ => (Some(0), 0),
     };
-    StyleCase { calls, len, pos, cols: 1 + u.n(198) as u16, ticks: u.n(11) as u8, finish: u.bool(), msg: u.short(8), advance_ms: [0u64, 1, 4999, 3_600_000, u32::MAX as u64 * 1000][u.n(4)] }
+    StyleCase { calls, len, pos, cols: u.n(199) as u16, ticks: u.n(11) as u8, finish: u.bool(), msg: u.short(8), advance_ms: [0u64, 1, 4999, 3_600_000, u32::MAX as u64 * 1000][u.n(4)] }
 }
 
 pub fn property() -> Property {
